@@ -65,10 +65,11 @@ def generate(seed_: int, run: int, info: dict) -> dict:
     fault_mode = rng.random() < 0.7
     n_phases = rng.choice([1, 1, 2, 2, 3])
     phases = []
-    cfg = rng.choice(core.HASH_CONFIGS)
+    cfgs = core.hash_configs(seed_, run)
+    cfg = rng.choice(cfgs)
     for p in range(n_phases):
         if p > 0 and rng.random() < 0.5:
-            cfg = rng.choice(core.HASH_CONFIGS)
+            cfg = rng.choice(cfgs)
         actors = []
         for _ in range(rng.choice([1, 2, 2, 3, 3, 4])):
             calls = [{"expr": rng.choice(subset), "dir": "default" if rng.random() < 0.1 else "shared"}
@@ -331,7 +332,7 @@ def minimise(zy: ZygoteSet, seed_: int, run: int, violation: dict, options: dict
         return None
     payload = {
         "workload": workload, "traces": out["traces"], "violation": match[0],
-        "shrunk": shrunk, "hashseeds": {c: zy.hashseed_of(c) for c in core.HASH_CONFIGS},
+        "shrunk": shrunk, 
         "events_digests": [p["events_digest"] for p in out["phases"]],
         "check_version": CHECK_VERSION,
     }
